@@ -1163,7 +1163,258 @@ func cliChecks(r *vlib.Run, mode string, trial int, rng *rand.Rand, sc *scenario
 			}
 		}
 	}
+	// Fourth display: shortproto (one text-format SubscribeResponse per line, the
+	// CLI's ProtoHandler path, which bypasses the client library's conversion to
+	// paths and scalars). The printed responses are replayed by the harness's own
+	// indexing and value decoding and must give the same leaves.
+	wantKeys := func() []string {
+		var ks []string
+		for k := range want {
+			ks = append(ks, k)
+		}
+		sort.Strings(ks)
+		return ks
+	}
+	for _, form := range []string{"flags", "proto", "proto_file"} {
+		args := append(append(append([]string{}, common...), "-dt", "sp"), forms[form]...)
+		stdout, stderr, err, timedOut := runCLI(cliBin, args)
+		r.Count("cli_invocations_shortproto_"+form, 1)
+		if timedOut {
+			r.Inconclusive("gnmi_cli did not finish within 60 s")
+			return false
+		}
+		if err != nil {
+			w := wit()
+			w["cli_args"] = args
+			w["cli_stdout"] = tail(stdout, 800)
+			w["cli_stderr"] = tail(stderr, 800)
+			r.Violation(mode, trial, "cli-failed:"+form, fmt.Sprintf("gnmi_cli (%s form, shortproto display) exited with %v: %s", form, err, tail(stdout+stderr, 300)), w)
+			return false
+		}
+		got := map[string]interface{}{}
+		syncs, conflict := 0, ""
+		for _, line := range strings.Split(stdout, "\n") {
+			line = strings.TrimSpace(line)
+			if line == "" || strings.HasPrefix(line, "//") {
+				continue
+			}
+			resp := &gpb.SubscribeResponse{}
+			if perr := prototext.Unmarshal([]byte(line), resp); perr != nil {
+				r.Violation(mode, trial, "cli-output-unparseable", fmt.Sprintf("gnmi_cli shortproto output line is not a text-format SubscribeResponse: %v", perr), map[string]interface{}{"line": tail(line, 600)})
+				return false
+			}
+			if resp.GetSyncResponse() {
+				syncs++
+				continue
+			}
+			n := resp.GetUpdate()
+			pre := []string{n.GetPrefix().GetTarget()}
+			if o := n.GetPrefix().GetOrigin(); o != "" {
+				pre = append(pre, o)
+			}
+			pre = append(pre, pbIndex(n.GetPrefix())...)
+			for _, u := range n.GetUpdate() {
+				kp := append(append([]string{}, pre...), pbIndex(u.GetPath())...)
+				if len(kp) >= 2 && kp[1] == "meta" {
+					continue
+				}
+				k := model.Key(kp)
+				v := decodeTV(u.GetVal())
+				if prev, dup := got[k]; dup && !valuesEqual(prev, v) {
+					conflict = strings.Join(kp, "/")
+				}
+				got[k] = v
+			}
+		}
+		r.Count("cli_outputs_compared", 1)
+		var diffs []string
+		if conflict != "" {
+			diffs = append(diffs, "conflicting values printed for "+conflict)
+		}
+		if syncs != 1 {
+			diffs = append(diffs, fmt.Sprintf("%d sync responses printed", syncs))
+		}
+		for _, k := range wantKeys() {
+			if gv, ok := got[k]; !ok {
+				diffs = append(diffs, "missing "+strings.Join(model.Unkey(k), "/"))
+			} else if !valuesEqual(gv, want[k]) {
+				diffs = append(diffs, fmt.Sprintf("%s: printed %#v, want %#v", strings.Join(model.Unkey(k), "/"), gv, want[k]))
+			}
+		}
+		for k, gv := range got {
+			if _, ok := want[k]; !ok {
+				diffs = append(diffs, fmt.Sprintf("extra %s=%#v", strings.Join(model.Unkey(k), "/"), gv))
+			}
+		}
+		if len(diffs) > 0 {
+			sort.Strings(diffs)
+			if len(diffs) > 8 {
+				diffs = diffs[:8]
+			}
+			w := wit()
+			w["queries"] = qstrs
+			r.Violation(mode, trial, "cli-output-differs:"+form, fmt.Sprintf("gnmi_cli %s form, shortproto display, queries %v on %s: %s", form, qstrs, s.name, strings.Join(diffs, "; ")), w)
+			return false
+		}
+	}
+	// POLL through the CLI: two rounds, group display; the streams are quiescent, so
+	// both printed trees must be the final state.
+	slp := proto.Clone(sl).(*gpb.SubscriptionList)
+	slp.Mode = gpb.SubscriptionList_POLL
+	ptxtP := prototext.MarshalOptions{Multiline: false}.Format(&gpb.SubscribeRequest{Request: &gpb.SubscribeRequest_Subscribe{Subscribe: slp}})
+	pfileP := filepath.Join(sc.dir, fmt.Sprintf("req-poll-%s.txt", s.name))
+	os.WriteFile(pfileP, []byte(ptxtP), 0o600)
+	pollForms := map[string][]string{
+		"flags":      {"-t", s.name, "-q", strings.Join(qstrs, ","), "-qt", "polling"},
+		"proto":      {"-proto", ptxtP},
+		"proto_file": {"-proto_file", pfileP},
+	}
+	pf := []string{"flags", "proto", "proto_file"}[rng.Intn(3)]
+	{
+		args := append(append(append([]string{}, common...), "-dt", "group", "-pi", "20ms", "-c", "2"), pollForms[pf]...)
+		stdout, stderr, err, timedOut := runCLI(cliBin, args)
+		r.Count("cli_invocations_poll_"+pf, 1)
+		if timedOut {
+			r.Inconclusive("gnmi_cli did not finish within 60 s")
+			return false
+		}
+		if err != nil {
+			w := wit()
+			w["cli_args"] = args
+			w["cli_stdout"] = tail(stdout, 800)
+			w["cli_stderr"] = tail(stderr, 800)
+			r.Violation(mode, trial, "cli-failed:"+pf, fmt.Sprintf("gnmi_cli (%s form, POLL x2, group display) exited with %v: %s", pf, err, tail(stdout+stderr, 300)), w)
+			return false
+		}
+		groups, perr := parseGroups(stdout)
+		if perr != nil {
+			r.Violation(mode, trial, "cli-output-unparseable", fmt.Sprintf("gnmi_cli group output (POLL) cannot be parsed: %v", perr), map[string]interface{}{"stdout": tail(stdout, 1500)})
+			return false
+		}
+		wantR := map[string]string{}
+		for k, v := range want {
+			wantR[k] = renderGroup(v)
+		}
+		var diffs []string
+		if len(groups) != 2 {
+			diffs = append(diffs, fmt.Sprintf("%d trees printed for -count 2", len(groups)))
+		}
+		for gi, got := range groups {
+			for k := range got {
+				if kp := model.Unkey(k); len(kp) >= 2 && kp[1] == "meta" {
+					delete(got, k)
+				}
+			}
+			for k, wv := range wantR {
+				if gv, ok := got[k]; !ok {
+					diffs = append(diffs, fmt.Sprintf("round %d: missing %s", gi+1, show(k, "group")))
+				} else if gv != wv {
+					diffs = append(diffs, fmt.Sprintf("round %d: %s: printed %s, want %s", gi+1, show(k, "group"), gv, wv))
+				}
+			}
+			for k, gv := range got {
+				if _, ok := wantR[k]; !ok {
+					diffs = append(diffs, fmt.Sprintf("round %d: extra %s=%s", gi+1, show(k, "group"), gv))
+				}
+			}
+		}
+		r.Count("cli_outputs_compared", 1)
+		if len(diffs) > 0 {
+			sort.Strings(diffs)
+			if len(diffs) > 8 {
+				diffs = diffs[:8]
+			}
+			w := wit()
+			w["queries"] = qstrs
+			r.Violation(mode, trial, "cli-output-differs:"+pf, fmt.Sprintf("gnmi_cli %s form, POLL x2, group display, queries %v on %s: %s", pf, qstrs, s.name, strings.Join(diffs, "; ")), w)
+			return false
+		}
+	}
 	return true
+}
+
+func runCLI(cliBin string, args []string) (string, string, error, bool) {
+	cctx, cancel := context.WithTimeout(context.Background(), 60*time.Second)
+	defer cancel()
+	cmd := exec.CommandContext(cctx, cliBin, args...)
+	var stdout, stderr bytes.Buffer
+	cmd.Stdout, cmd.Stderr = &stdout, &stderr
+	err := cmd.Run()
+	return stdout.String(), stderr.String(), err, cctx.Err() == context.DeadlineExceeded
+}
+
+// pbIndex is the harness's own index form of a path: elem names followed by
+// their key values in key-name order; the deprecated element strings when no
+// elem is present.
+func pbIndex(p *gpb.Path) []string {
+	var out []string
+	if len(p.GetElem()) == 0 {
+		return append(out, p.GetElement()...)
+	}
+	for _, e := range p.GetElem() {
+		out = append(out, e.GetName())
+		var ks []string
+		for k := range e.GetKey() {
+			ks = append(ks, k)
+		}
+		sort.Strings(ks)
+		for _, k := range ks {
+			out = append(out, e.GetKey()[k])
+		}
+	}
+	return out
+}
+
+// decodeTV is the inverse of the generator's hand encoding.
+func decodeTV(tv *gpb.TypedValue) interface{} {
+	switch v := tv.GetValue().(type) {
+	case *gpb.TypedValue_StringVal:
+		return v.StringVal
+	case *gpb.TypedValue_IntVal:
+		return v.IntVal
+	case *gpb.TypedValue_UintVal:
+		return v.UintVal
+	case *gpb.TypedValue_BoolVal:
+		return v.BoolVal
+	case *gpb.TypedValue_DoubleVal:
+		return v.DoubleVal
+	case *gpb.TypedValue_FloatVal:
+		return v.FloatVal
+	case *gpb.TypedValue_BytesVal:
+		return v.BytesVal
+	case *gpb.TypedValue_LeaflistVal:
+		var out []interface{}
+		for _, e := range v.LeaflistVal.GetElement() {
+			out = append(out, decodeTV(e))
+		}
+		return out
+	}
+	return fmt.Sprintf("undecoded:%v", tv)
+}
+
+// parseGroups splits a CLI output holding several group displays (one per
+// poll round) and parses each.
+func parseGroups(out string) ([]map[string]string, error) {
+	var res []map[string]string
+	var cur []string
+	for _, line := range strings.Split(out, "\n") {
+		if strings.HasPrefix(line, "//") {
+			continue
+		}
+		cur = append(cur, line)
+		if line == "}" {
+			g, err := parseGroup(strings.Join(cur, "\n"))
+			if err != nil {
+				return nil, err
+			}
+			res = append(res, g)
+			cur = nil
+		}
+	}
+	if strings.TrimSpace(strings.Join(cur, "")) != "" {
+		return nil, fmt.Errorf("trailing output %q", tail(strings.Join(cur, "\n"), 200))
+	}
+	return res, nil
 }
 
 func show(k, dt string) string {
